@@ -10,6 +10,9 @@ package props
 // coefficient vector) and 11..251 (sampled); every dealing is written as one ndjson line and FeldmanVSS_Trace.tla must
 // explain every line (outcome of Create, exact result of every Verify / ReConstruct call, property invariants).
 // Real size: the same predicates on secp256k1 and edwards25519, judged by math/big and harness/obs.
+// Signed representatives: ids, secrets and altered ids / share values are integers that stand for residues modulo q; the
+// model's windows (Ids, Secrets, AltMin..AltMax), the sampled toy dealings and the real-size plan all contain negative
+// integers and integers >= q for every class (k-q, k, k+q are one id; -q, 0, q are the inadmissible id).
 // Verdicts come from the real outputs only (c15Run); a line TLC does not explain although the harness found nothing is
 // inconclusive.
 
@@ -38,34 +41,53 @@ func init() { Registry["C15"] = C15 }
 // ------------------------------------------------------------------ model checking of the design
 
 type c15MC struct {
-	Q, MaxT, MaxN, AltMax, AltN int
-	Ids                         []int
+	Q, MaxT, MaxN, AltMin, AltMax, AltN int
+	Ids, Secrets                        []int // windows around 0: negative, canonical and >= q representatives
+	Name                                string
 }
 
 func c15IdsSet(ids []int) string {
 	s := make([]string, len(ids))
 	for i, v := range ids {
 		s[i] = strconv.Itoa(v)
+		if v < 0 {
+			s[i] = "(" + s[i] + ")"
+		}
 	}
 	return "{" + strings.Join(s, ", ") + "}"
 }
 
-func (m c15MC) cfg(spec, invs string) string {
-	return fmt.Sprintf("SPECIFICATION %s\nCONSTANTS\n  Q = %d\n  MaxT = %d\n  MaxN = %d\n  Ids = %s\n  AltMax = %d\n  AltN = %d\nINVARIANTS %s\nCHECK_DEADLOCK FALSE\n",
-		spec, m.Q, m.MaxT, m.MaxN, c15IdsSet(m.Ids), m.AltMax, m.AltN, invs)
+func c15Range(lo, hi int) []int {
+	var out []int
+	for v := lo; v <= hi; v++ {
+		out = append(out, v)
+	}
+	return out
 }
 
-const c15Invs = "InvSecrecy InvDeal InvCall InvEval InvInterp"
+// tlcInput: TLC's configuration files cannot hold negative numbers, so the (signed) windows of ids, secrets and altered
+// values are definitions of a generated wrapper module and bound with `<-`.
+func (m c15MC) tlcInput(base, spec, invs string) (module, cfg string, files map[string]string) {
+	module = "C15Gen" + base
+	wrapper := fmt.Sprintf("---- MODULE %s ----\nEXTENDS %s\nIdsVal == %s\nSecretsVal == %s\nAltMinVal == %d\n====\n",
+		module, base, c15IdsSet(m.Ids), c15IdsSet(m.Secrets), m.AltMin)
+	cfg = fmt.Sprintf("SPECIFICATION %s\nCONSTANTS\n  Q = %d\n  MaxT = %d\n  MaxN = %d\n  Ids <- IdsVal\n  Secrets <- SecretsVal\n  AltMin <- AltMinVal\n  AltMax = %d\n  AltN = %d\nINVARIANTS %s\nCHECK_DEADLOCK FALSE\n",
+		spec, m.Q, m.MaxT, m.MaxN, m.AltMax, m.AltN, invs)
+	return module, cfg, map[string]string{module + ".tla": wrapper}
+}
+
+const c15Invs = "InvSecrecy InvDeal InvCall InvEval InvInterp InvRepr"
 
 func c15RunMC(ms []c15MC, workers int) ([]tlc.Result, error) {
 	out := make([]tlc.Result, len(ms))
 	for i, m := range ms { // one after the other: each run already uses several workers
-		out[i] = tlc.Run(tlc.Options{Module: "FeldmanVSS", Cfg: m.cfg("Spec", c15Invs), Workers: workers, Heap: "4g", Timeout: 40 * time.Minute})
+		mod, cfg, files := m.tlcInput("FeldmanVSS", "Spec", c15Invs)
+		out[i] = tlc.Run(tlc.Options{Module: mod, Cfg: cfg, Files: files, Workers: workers, Heap: "4g", Timeout: 40 * time.Minute})
 		if out[i].Err != nil {
-			return out, fmt.Errorf("FeldmanVSS Q=%d: %v", m.Q, out[i].Err)
+			return out, fmt.Errorf("FeldmanVSS %s: %v", m.Name, out[i].Err)
 		}
 		if !out[i].OK {
-			return out, fmt.Errorf("FeldmanVSS Q=%d violates %s:\n%s", m.Q, out[i].Violated, out[i].ErrorTrace(2500))
+			return out, fmt.Errorf("FeldmanVSS %s violates %s:\n%s", m.Name, out[i].Violated, out[i].ErrorTrace(2500))
 		}
 	}
 	return out, nil
@@ -110,50 +132,84 @@ func c15Refused(q, t int, ids []int) bool {
 	return t < 1 || len(ids) < t
 }
 
-// c15ToyExhaustive enumerates the domain of the FeldmanVSS model m on the toy curve of order m.Q: every threshold, every id
-// set, and for the dealings that are not refused every secret and every byte tape (one byte < q per drawn coefficient).
-func c15ToyExhaustive(m c15MC, seed int64) []c15Scenario {
+// c15ToyExhaustive enumerates the domains of the FeldmanVSS models ms (all of the same order q) on the toy curve of that
+// order: every threshold, every id set (signed windows: negative, canonical and >= q representatives), and for the dealings
+// that are not refused every secret of the window and every byte tape (one byte < q per drawn coefficient). A dealing that
+// belongs to several of the domains is run once, with the widest set of alterations.
+func c15ToyExhaustive(ms []c15MC, seed int64) []c15Scenario {
 	var out []c15Scenario
-	curve := fmt.Sprintf("toy-%d", m.Q)
-	rng := rand.New(rand.NewSource(seed*31 + int64(m.Q)))
-	for t := 0; t <= m.MaxT; t++ {
-		for _, ids := range c15Subsets(m.Ids, m.MaxN) {
-			if c15Refused(m.Q, t, ids) {
-				out = append(out, c15Scenario{Curve: curve, T: t, Secret: "1", Ids: c15Ints(ids), Tape: strings.Repeat("01", t+1), Seed: seed, Label: "exhaustive/refused"})
-				continue
+	if len(ms) == 0 {
+		return out
+	}
+	q := ms[0].Q
+	curve := fmt.Sprintf("toy-%d", q)
+	rng := rand.New(rand.NewSource(seed*31 + int64(q)))
+	index := map[string]int{}
+	covers := func(a, b c15Scenario) bool { // a's alterations include b's
+		return !b.Alter || (a.Alter && a.AltMin <= b.AltMin && a.AltMax >= b.AltMax)
+	}
+	put := func(key string, sc c15Scenario) {
+		if j, ok := index[key]; ok {
+			switch {
+			case covers(out[j], sc):
+				return
+			case covers(sc, out[j]):
+				sc.Seed = out[j].Seed
+				out[j] = sc
+				return
 			}
-			ntapes := 1
-			for i := 0; i < t; i++ {
-				ntapes *= m.Q
-			}
-			for secret := 0; secret < m.Q; secret++ {
-				for tp := 0; tp < ntapes; tp++ {
-					tape := make([]byte, t)
-					x := tp
-					for i := range tape {
-						tape[i] = byte(x % m.Q)
-						x /= m.Q
-					}
-					out = append(out, c15Scenario{Curve: curve, T: t, Secret: strconv.Itoa(secret), Ids: c15Ints(ids), Tape: hex.EncodeToString(tape),
-						Seed: seed + int64(len(out)), Alter: len(ids) <= m.AltN, AltMax: m.AltMax, Label: "exhaustive"})
+		} else {
+			index[key] = len(out)
+		}
+		out = append(out, sc)
+	}
+	for _, m := range ms {
+		for t := 0; t <= m.MaxT; t++ {
+			for _, ids := range c15Subsets(m.Ids, m.MaxN) {
+				if c15Refused(m.Q, t, ids) {
+					put(fmt.Sprintf("R|%d|%v", t, ids), c15Scenario{Curve: curve, T: t, Secret: "1", Ids: c15Ints(ids), Tape: strings.Repeat("01", t+1), Seed: seed, Label: "exhaustive/refused"})
+					continue
 				}
-			}
-			// the same ids in another order (the order of ids must not matter), random coefficients
-			if len(ids) >= 2 {
-				perm := append([]int(nil), ids...)
-				rng.Shuffle(len(perm), func(i, j int) { perm[i], perm[j] = perm[j], perm[i] })
-				out = append(out, c15Scenario{Curve: curve, T: t, Secret: strconv.Itoa(1 + rng.Intn(m.Q-1)), Ids: c15Ints(perm), Seed: seed + int64(len(out)),
-					Alter: true, AltMax: m.AltMax, Label: "permuted"})
+				ntapes := 1
+				for i := 0; i < t; i++ {
+					ntapes *= m.Q
+				}
+				for _, secret := range m.Secrets {
+					for tp := 0; tp < ntapes; tp++ {
+						tape := make([]byte, t)
+						x := tp
+						for i := range tape {
+							tape[i] = byte(x % m.Q)
+							x /= m.Q
+						}
+						put(fmt.Sprintf("D|%d|%v|%d|%d", t, ids, secret, tp), c15Scenario{Curve: curve, T: t, Secret: strconv.Itoa(secret), Ids: c15Ints(ids), Tape: hex.EncodeToString(tape),
+							Seed: seed + int64(len(out)), Alter: len(ids) <= m.AltN, AltMin: m.AltMin, AltMax: m.AltMax, Label: "exhaustive"})
+					}
+				}
+				// the same ids in another order (the order of ids must not matter), random coefficients
+				if len(ids) >= 2 {
+					perm := append([]int(nil), ids...)
+					rng.Shuffle(len(perm), func(i, j int) { perm[i], perm[j] = perm[j], perm[i] })
+					secret := m.Secrets[rng.Intn(len(m.Secrets))]
+					if ((secret%m.Q)+m.Q)%m.Q == 0 {
+						secret++
+					}
+					put(fmt.Sprintf("P|%d|%v", t, ids), c15Scenario{Curve: curve, T: t, Secret: strconv.Itoa(secret), Ids: c15Ints(perm), Seed: seed + int64(len(out)),
+						Alter: true, AltMin: m.AltMin, AltMax: m.AltMax, Label: "permuted"})
+				}
 			}
 		}
 	}
 	return out
 }
 
-// c15ToySampled: random dealings on a larger toy curve (ids up to 3q, some inadmissible), alterations from the catalogue.
+// c15ToySampled: random dealings on a larger toy curve (ids and secrets as signed representatives in -2q..3q, some id lists
+// inadmissible: a multiple of q of either sign, two representatives - possibly of different sign - of one class),
+// alterations from the catalogue.
 func c15ToySampled(q, count int, seed int64) []c15Scenario {
 	rng := rand.New(rand.NewSource(seed*977 + int64(q)))
 	curve := fmt.Sprintf("toy-%d", q)
+	shift := func() int { return q * (rng.Intn(5) - 2) } // -2q, -q, 0, q, 2q
 	var out []c15Scenario
 	for len(out) < count {
 		t := 1 + rng.Intn(3)
@@ -168,25 +224,25 @@ func c15ToySampled(q, count int, seed int64) []c15Scenario {
 		res := rng.Perm(q - 1)[:n]
 		ids := make([]int, n)
 		for i, r := range res {
-			ids[i] = r + 1 + q*rng.Intn(3)
+			ids[i] = r + 1 + shift()
 		}
 		label := "sampled"
 		switch rng.Intn(8) {
 		case 0:
-			ids[rng.Intn(n)] = q * rng.Intn(3)
+			ids[rng.Intn(n)] = shift()
 			label = "sampled/id-0-mod-q"
 		case 1:
 			if n >= 2 {
 				i, j := rng.Intn(n), rng.Intn(n)
 				if i != j {
-					ids[i] = ids[j]%q + q*rng.Intn(3)
+					ids[i] = ((ids[j]%q)+q)%q + shift()
 					label = "sampled/ids-equal-mod-q"
 				}
 			}
 		}
-		secret := 1 + rng.Intn(q-1)
+		secret := 1 + rng.Intn(q-1) + q*(rng.Intn(4)-2) // s-2q, s-q, s, s+q
 		if rng.Intn(12) == 0 {
-			secret = 0
+			secret = q * (rng.Intn(3) - 1)
 		}
 		only := []int{rng.Intn(n)}
 		if o := rng.Intn(n); o != only[0] {
@@ -198,8 +254,10 @@ func c15ToySampled(q, count int, seed int64) []c15Scenario {
 	return out
 }
 
-// c15RealPlan: dealings at real size. Secrets 1, q-1, random; (t, n) pairs; id patterns small / random / with q-1 / with
-// q+1 (alias of 1) / k*q + r; inadmissible patterns (0, q, 2q; equal ids; ids congruent modulo q) at every position.
+// c15RealPlan: dealings at real size. Secrets 1, q-1, random, and the negative representatives -1, s-q; (t, n) pairs; id
+// patterns small / random / with q-1 / with q+1 (alias of 1) / k*q + r / all-negative representatives / mixed signs;
+// inadmissible patterns (0, q, 2q, -q, -3q; equal ids; ids congruent modulo q, as representatives of either sign) at
+// every position.
 func c15RealPlan(ctx *core.Ctx, cv *c15Curve) []c15Scenario {
 	rng := rand.New(rand.NewSource(ctx.Seed*7919 + int64(len(cv.Name))))
 	q := cv.Q
@@ -208,7 +266,7 @@ func c15RealPlan(ctx *core.Ctx, cv *c15Curve) []c15Scenario {
 	}
 	add := func(x *big.Int, k int64) *big.Int { return new(big.Int).Add(x, big.NewInt(k)) }
 	mulq := func(k int64, r *big.Int) *big.Int { return new(big.Int).Add(new(big.Int).Mul(q, big.NewInt(k)), r) }
-	patterns := []string{"small", "random", "with-q-1", "with-q+1", "kq+r", "mixed"}
+	patterns := []string{"small", "random", "with-q-1", "with-q+1", "kq+r", "mixed", "negative", "mixed-sign"}
 	idsFor := func(pat string, n int) []*big.Int {
 		ids := make([]*big.Int, n)
 		for i := range ids {
@@ -229,6 +287,26 @@ func c15RealPlan(ctx *core.Ctx, cv *c15Curve) []c15Scenario {
 				}
 			case "kq+r":
 				ids[i] = mulq(int64(1+rng.Intn(9)), big.NewInt(int64(2*i+2)))
+			case "negative": // every id a negative representative: -(small), r-q, r-kq
+				switch i % 3 {
+				case 0:
+					ids[i] = big.NewInt(int64(-(i + 1)))
+				case 1:
+					ids[i] = mulq(-1, big.NewInt(int64(i+1)))
+				default:
+					ids[i] = mulq(-int64(1+rng.Intn(9)), rnd())
+				}
+			case "mixed-sign":
+				switch i % 4 {
+				case 0:
+					ids[i] = mulq(-1, rnd())
+				case 1:
+					ids[i] = big.NewInt(int64(i + 1))
+				case 2:
+					ids[i] = big.NewInt(int64(-(i + 1)))
+				default:
+					ids[i] = mulq(1, rnd())
+				}
 			default:
 				switch i % 3 {
 				case 0:
@@ -258,10 +336,14 @@ func c15RealPlan(ctx *core.Ctx, cv *c15Curve) []c15Scenario {
 			return big.NewInt(1)
 		case "q-1":
 			return add(q, -1)
+		case "-1": // the secret q-1 as a negative integer
+			return big.NewInt(-1)
+		case "s-q": // a random secret as its negative representative
+			return new(big.Int).Sub(rnd(), q)
 		}
 		return rnd()
 	}
-	classes := []string{"1", "q-1", "random"}
+	classes := []string{"1", "q-1", "random", "-1", "s-q"}
 	var out []c15Scenario
 	mk := func(t int, secret *big.Int, ids []*big.Int, alter bool, label string) {
 		// the material of one share (every third dealing of the thorough tier: two shares) is altered, rotating through the positions
@@ -279,7 +361,8 @@ func c15RealPlan(ctx *core.Ctx, cv *c15Curve) []c15Scenario {
 	for _, p := range tn {
 		for _, pat := range patterns {
 			for ci, cls := range classes {
-				if !ctx.Thorough() && (k+ci)%3 != 0 { // quick: one secret class per (t,n,pattern), rotating
+				// quick: one secret class per (t,n,pattern), thorough: three of the five (two for the signed id patterns), rotating
+				if r := (k + ci) % len(classes); (!ctx.Thorough() && r != 0) || r >= 3 || (r == 2 && (pat == "negative" || pat == "mixed-sign")) {
 					continue
 				}
 				mk(p[0], secretOf(cls), idsFor(pat, p[1]), true, fmt.Sprintf("t=%d,n=%d/%s/secret=%s", p[0], p[1], pat, cls))
@@ -288,7 +371,7 @@ func c15RealPlan(ctx *core.Ctx, cv *c15Curve) []c15Scenario {
 		}
 	}
 	// sampled
-	for i := 0; i < ctx.Pick(6, 120); i++ {
+	for i := 0; i < ctx.Pick(6, 80); i++ {
 		t := 1 + rng.Intn(4)
 		n := t + rng.Intn(7-t)
 		mk(t, rnd(), idsFor(patterns[rng.Intn(len(patterns))], n), i%4 == 0 || !ctx.Thorough(), "sampled")
@@ -307,13 +390,28 @@ func c15RealPlan(ctx *core.Ctx, cv *c15Curve) []c15Scenario {
 		{"equal-ids", func(ids []*big.Int, pos int) { ids[pos] = new(big.Int).Set(ids[(pos+1)%len(ids)]) }},
 		{"id+q", func(ids []*big.Int, pos int) { ids[pos] = new(big.Int).Add(ids[(pos+1)%len(ids)], q) }},
 		{"id+3q", func(ids []*big.Int, pos int) { ids[pos] = mulq(3, ids[(pos+1)%len(ids)]) }},
+		// the same classes as negative integers
+		{"id=-q", func(ids []*big.Int, pos int) { ids[pos] = new(big.Int).Neg(q) }},
+		{"id=-3q", func(ids []*big.Int, pos int) { ids[pos] = mulq(-3, big.NewInt(0)) }},
+		{"id-q", func(ids []*big.Int, pos int) { ids[pos] = new(big.Int).Sub(ids[(pos+1)%len(ids)], q) }},
+		{"id-2q", func(ids []*big.Int, pos int) { ids[pos] = mulq(-2, ids[(pos+1)%len(ids)]) }},
+		{"id-q,id-3q", func(ids []*big.Int, pos int) { // both representatives negative
+			o := (pos + 1) % len(ids)
+			ids[o] = new(big.Int).Sub(cv.mod(ids[o]), q)
+			ids[pos] = mulq(-2, ids[o])
+		}},
+		{"-x,q-x", func(ids []*big.Int, pos int) { // the negated id -x next to its canonical representative q-x
+			o := (pos + 1) % len(ids)
+			ids[pos] = new(big.Int).Neg(cv.mod(ids[o]))
+			ids[o] = cv.mod(ids[pos])
+		}},
 		{"id-mod-q", func(ids []*big.Int, pos int) {
 			ids[(pos+1)%len(ids)] = mulq(4, ids[(pos+1)%len(ids)])
 			ids[pos] = cv.mod(ids[(pos+1)%len(ids)])
 		}},
 	}
 	for _, b := range bad {
-		for _, pat := range []string{"small", "random", "kq+r"} {
+		for _, pat := range []string{"small", "random", "kq+r", "negative"} {
 			for _, n := range []int{2, 3, 5} {
 				for pos := 0; pos < n; pos++ {
 					if !ctx.Thorough() && (pos+n+len(pat))%2 == 0 {
@@ -411,8 +509,9 @@ func c15Validate(q int, lines []string, workers int) (c15TraceVerdict, error) {
 		return v, err
 	}
 	defer cleanup()
-	m := c15MC{Q: q, MaxT: 1, MaxN: 1, Ids: []int{1}, AltMax: 1, AltN: 1} // the trace module does not use the enumeration constants
-	r := tlc.Run(tlc.Options{Module: "FeldmanVSS_Trace", Cfg: m.cfg("TraceSpec", inv), Env: map[string]string{"TRACE": path},
+	m := c15MC{Q: q, MaxT: 1, MaxN: 1, Ids: []int{1}, Secrets: []int{1}, AltMax: 1, AltN: 1} // the trace module does not use the enumeration constants
+	mod, cfg, files := m.tlcInput("FeldmanVSS_Trace", "TraceSpec", inv)
+	r := tlc.Run(tlc.Options{Module: mod, Cfg: cfg, Files: files, Env: map[string]string{"TRACE": path},
 		Workers: workers, Heap: "4g", Timeout: 40 * time.Minute})
 	v.Res = r
 	if mm := reC15Reject.FindStringSubmatch(r.Output); mm != nil {
@@ -533,12 +632,18 @@ func C15(ctx *core.Ctx) error {
 	cov := core.NewCov()
 
 	// ---- design: TLC on FeldmanVSS.tla, in the background
-	mc5 := c15MC{Q: 5, MaxT: 2, MaxN: 4, Ids: []int{0, 1, 2, 3, 4, 5, 6}, AltMax: 9, AltN: 2}
-	mc7 := c15MC{Q: 7, MaxT: 2, MaxN: 4, Ids: []int{0, 1, 2, 3, 4, 5, 6, 7, 8}, AltMax: 13, AltN: 2}
-	mcPlan := []c15MC{mc5}
+	// "unsigned" configurations: canonical representatives and representatives >= q, the larger (t, n) domain;
+	// "signed" configurations: ids, secrets and altered values range over windows around 0 (negative representatives of
+	// every class, -q and 0 and q as the inadmissible id, k and k-q and k+q as colliding ids)
+	mc5 := c15MC{Name: "q=5", Q: 5, MaxT: 2, MaxN: 4, Ids: c15Range(0, 6), Secrets: c15Range(0, 4), AltMin: 0, AltMax: 9, AltN: 2}
+	mc5s := c15MC{Name: "q=5 signed", Q: 5, MaxT: 1, MaxN: 2, Ids: c15Range(-6, 6), Secrets: c15Range(-2, 2), AltMin: -9, AltMax: 9, AltN: 1}
+	mc7 := c15MC{Name: "q=7", Q: 7, MaxT: 2, MaxN: 4, Ids: c15Range(0, 8), Secrets: c15Range(0, 6), AltMin: 0, AltMax: 13, AltN: 2}
+	mc7s := c15MC{Name: "q=7 signed", Q: 7, MaxT: 1, MaxN: 2, Ids: c15Range(-8, 8), Secrets: c15Range(-3, 3), AltMin: -13, AltMax: 13, AltN: 1}
+	mcPlan := []c15MC{mc5s, mc5}
 	if ctx.Thorough() {
 		mc5.AltN = 4
-		mcPlan = []c15MC{mc5, mc7}
+		mc5s.MaxT, mc5s.MaxN, mc5s.AltN, mc5s.Secrets = 2, 3, 2, c15Range(-3, 3)
+		mcPlan = []c15MC{mc5s, mc5, mc7s, mc7}
 	}
 	var mcRes []tlc.Result
 	var mcErr error
@@ -564,8 +669,16 @@ func C15(ctx *core.Ctx) error {
 		err        error
 	}
 	var toys []*toyRun
-	for _, m := range mcPlan {
-		toys = append(toys, &toyRun{q: m.Q, exhaustive: true, scs: c15ToyExhaustive(m, ctx.Seed)})
+	for _, q := range []int{5, 7} { // one run (and one trace) per exhaustive order: the domains of all its configurations
+		var ms []c15MC
+		for _, m := range mcPlan {
+			if m.Q == q {
+				ms = append(ms, m)
+			}
+		}
+		if len(ms) > 0 {
+			toys = append(toys, &toyRun{q: q, exhaustive: true, scs: c15ToyExhaustive(ms, ctx.Seed)})
+		}
 	}
 	sampledQs := []int{17, 251}
 	if ctx.Thorough() {
@@ -606,7 +719,7 @@ func C15(ctx *core.Ctx) error {
 	var realErr error
 	var wgReal sync.WaitGroup
 	wgReal.Add(1)
-	go func() { defer wgReal.Done(); realRes, realErr = c15RunAll(realScs, 6, nil) }()
+	go func() { defer wgReal.Done(); realRes, realErr = c15RunAll(realScs, ctx.Pick(6, 8), nil) }()
 
 	// ---- judge the toy runs, check that the tapes covered the whole coefficient space, build the trace files
 	type agg struct{ verifies, recons, fewer, fewerHits, coinc, degenerate, alias, ok, refused, panics, drift int }
@@ -706,7 +819,7 @@ func C15(ctx *core.Ctx) error {
 					want *= tr.q - 1
 					all *= tr.q
 				}
-				if g.secret == 0 {
+				if ((g.secret%tr.q)+tr.q)%tr.q == 0 {
 					want = 0
 				}
 				if len(g.vs) != want || g.panics != all-want || g.tapes != all {
@@ -861,7 +974,8 @@ func C15(ctx *core.Ctx) error {
 	for i, r := range mcRes {
 		if r.OK {
 			cov.AddMC(r.Distinct, r.Generated)
-			mcOut = append(mcOut, map[string]any{"Q": mcPlan[i].Q, "MaxT": mcPlan[i].MaxT, "MaxN": mcPlan[i].MaxN, "Ids": mcPlan[i].Ids, "AltMax": mcPlan[i].AltMax, "AltN": mcPlan[i].AltN,
+			mcOut = append(mcOut, map[string]any{"name": mcPlan[i].Name, "Q": mcPlan[i].Q, "MaxT": mcPlan[i].MaxT, "MaxN": mcPlan[i].MaxN, "Ids": mcPlan[i].Ids, "Secrets": mcPlan[i].Secrets,
+				"AltMin": mcPlan[i].AltMin, "AltMax": mcPlan[i].AltMax, "AltN": mcPlan[i].AltN,
 				"distinct": r.Distinct, "generated": r.Generated, "depth": r.Depth, "wall_s": r.Wall})
 		}
 	}
@@ -885,7 +999,7 @@ func C15(ctx *core.Ctx) error {
 	cov.Set("toy_wall_s", toyWall)
 	cov.Set("real_wall_s", realWall)
 	cov.Set("drift_notes", driftNotes)
-	cov.Set("exhaustive", "toy orders of mc_configs: every id set, threshold, secret and coefficient vector; real size: sampled")
+	cov.Set("exhaustive", "toy orders of mc_configs: every id set and secret of the (signed) windows, threshold and coefficient vector; real size: sampled")
 	if len(inconcl) > 0 && len(ctx.Violations()) == 0 {
 		return core.Inconcl("%s", strings.Join(inconcl, "\n  "))
 	}
@@ -893,7 +1007,7 @@ func C15(ctx *core.Ctx) error {
 		ctx.Note("machinery: %s", s)
 	}
 	return ctx.WriteEvidence("model_checking",
-		"one case = one dealing by the real vss.Create (curve, t, secret, id list, random tape) with the Verify / ReConstruct calls made on it (own ids, every single alteration of id / share / "+
+		"one case = one dealing by the real vss.Create (curve, t, secret, id list, random tape; ids and secrets as signed representatives: negative, canonical and >= q integers) with the Verify / ReConstruct calls made on it (own ids, every single alteration of id / share / "+
 			"one commitment / shape, every non-empty subset); distinct = distinct dealings, non-trivial = dealt (not refused, not degenerate panic). Verdict from the real outputs by independent arithmetic: "+
 			"V_0 = secret*G, commitments = a_k*G for the polynomial through (0,secret) and the shares, degree exactly t, own id verifies, altered id/share/commitment does not, >= t+1 shares give the secret, "+
 			"<= t shares give an error or another value (real size), inadmissible ids are refused without panic. states/transitions: TLC on spec/FeldmanVSS.tla ("+c15Invs+"); "+
